@@ -28,11 +28,16 @@ def model(chk, D, M, kind, S=1 << 8, mode="accumulate", inv=INV6, expect=None, o
 
 # coordinate of the centre of cell 0 in units of h, tied to the spacing so that the quick tier sees a grid origin other than h/2
 SFRAC = {0.25: 0.5, 2.0: 0.25, 2.0**-6: 0.0, 4.0: -3.25}
+# half-width of the support window handed to the kernels: both delta functions require 2 (the generators raise ValueError for any
+# other width -- covered by X01), so this is a constant; the plumbing stays parametric
+WIDTH = {0.25: 2, 2.0: 2, 2.0**-6: 2, 4.0: 2}
 
 
 def drive(chk, D, kind, real_t, h, cells, residues, M, grid, bump):
     """markers at lattice positions (i + r/M) h + sfrac h (cell centres at i h + sfrac h), optionally bumped by ulps."""
     sfrac = SFRAC[h]
+    W = WIDTH[h]
+    slots = tuple(range(-W + 1, W + 1))
     N = len(cells)
     pos = np.empty((D, N), dtype=real_t)
     for n, (i, r) in enumerate(zip(cells, residues)):
@@ -42,8 +47,8 @@ def drive(chk, D, kind, real_t, h, cells, residues, M, grid, bump):
             if bump:
                 x = np.nextafter(x, real_t(np.inf if bump > 0 else -np.inf))
             pos[k, n] = x
-    c = interp.comm(D, h, N, real_t, kind, 1, sfrac)
-    idx, w = interp.support_and_weights(c, pos, D, real_t)
+    c = interp.comm(D, h, N, real_t, kind, 1, sfrac, W)
+    idx, w = interp.support_and_weights(c, pos, D, real_t, W)
     eps = float(np.finfo(real_t).eps)
     phi = interp.PHI[kind]
     errs = []
@@ -63,15 +68,15 @@ def drive(chk, D, kind, real_t, h, cells, residues, M, grid, bump):
             break
         # closed-form tensor weights for the index the code chose
         wn = w[..., n].astype(float) * h**D
-        want = np.ones((4,) * D)
+        want = np.ones((2 * W,) * D)
         mom = [0.0] * D
         cellc = []
         for k in range(D):
             ax = D - 1 - k  # array axis of physical axis k in the window
-            d = np.array([(int(idx[k, n]) + j) + sfrac - float(pos[k, n]) / h for j in (-1, 0, 1, 2)])
+            d = np.array([(int(idx[k, n]) + j) + sfrac - float(pos[k, n]) / h for j in slots])
             v = np.array([phi(x) for x in d])
             sh = [1] * D
-            sh[ax] = 4
+            sh[ax] = 2 * W
             want = want * v.reshape(sh)
             cellc.append((d.reshape(sh), ax))
         tol = 32 * eps
@@ -155,8 +160,9 @@ def run(chk: core.Check):
                                 batch = res_list[i0 : i0 + nb]
                                 if len(batch) < nb:
                                     batch = batch + res_list[: nb - len(batch)]
-                                cells = [tuple(int(rng.integers(2, n - 3)) for n in ext) for _ in batch]
-                                cells[0] = tuple(n - 4 for n in ext)   # one marker at the far end of every axis
+                                mg = WIDTH[h]                            # the window must fit for either admissible nearest index
+                                cells = [tuple(int(rng.integers(mg, n - mg - 1)) for n in ext) for _ in batch]
+                                cells[0] = tuple(n - mg - 2 for n in ext)   # one marker at the far end of every axis
                                 try:
                                     errs = drive(chk, D, kind, real_t, h, cells, batch, M, grid, bump)
                                 except Exception as ex:
